@@ -491,6 +491,64 @@ def f(ctx):
 
 
 # ---------------------------------------------------------------------------
+
+@R.clause("C07.g", "lossy `async for` mailbox: producers replace a consumed future before completing it; the consumer re-arms only if the future it awaited is still current; end-of-observation errors end the iteration")
+def g_lossy_iterator(ctx):
+    """Single-slot mailbox discipline of ClientObservation._Iterator (added after an independently written
+    breaking change dropped the `f is self._future` test): if the consumer re-armed unconditionally after its
+    await, an item or error that a producer had already queued in a replacement future would be discarded, so
+    the freshest notification / the terminating error would never be delivered."""
+    IT = "protocol.ClientObservation._Iterator."
+    for name, setter in (("push", "set_result"), ("push_err", "set_exception")):
+        fi = ctx.prog.func(IT + name)
+        arg = params(fi)[0]
+        cfg = cfg_of(fi)
+        sets = [c for c in calls_in(fi.node) if isinstance(c.func, ast.Attribute) and c.func.attr == setter and chain(c.func.value) == "self._future"]
+        ctx.ob("%s completes the mailbox future with its argument" % name, len(sets) == 1 and sets[0].args and isinstance(sets[0].args[0], ast.Name) and sets[0].args[0].id == arg, fi, sets[0] if sets else fi.node,
+               construct="_Iterator.%s completion" % name)
+        fresh = [cfg.loc1(n) for k, n in stores_to(fi.node, "self._future", nested=False) if k == "assign" and isinstance(n.value, ast.Call) and isinstance(n.value.func, ast.Attribute) and n.value.func.attr == "create_future"]
+        done_t = [n.id for n in cfg.nodes if n.kind == "T" and match("self._future.done()", n.ast) is not None]
+        for c in sets:
+            nid = cfg.loc1(c)
+            ok = bool(done_t) and bool(fresh) and all(not cfg.exists_path(t, nid, avoid=set(fresh)) for t in done_t) and cfg.must_pass(cfg.entry, [nid])
+            ctx.ob("%s never completes an already completed future: a consumed/unfetched one is replaced first" % name, ok, fi, c)
+    fi = ctx.prog.func(IT + "__anext__")
+    cfg = cfg_of(fi)
+    awaits = [n for n in walk_no_nested(fi.node) if isinstance(n, ast.Await)]
+    aw = [a for a in awaits if chain(a.value) == "self._future" or (isinstance(a.value, ast.Name) and any(isinstance(w, ast.Assign) and chain(w.value) == "self._future" for w in writes_to_name(fi.node, a.value.id)))]
+    ctx.ob("__anext__ waits for the mailbox future", len(aw) == 1, fi, aw[0] if aw else fi.node, construct="_Iterator.__anext__ await")
+    if aw:
+        an = cfg.loc1(aw[0])
+        rearm = [(k, n) for k, n in stores_to(fi.node, "self._future", nested=False) if k == "assign" and an in cfg.dominators(cfg.loc1(n)) or (k == "assign" and cfg.exists_path(an, cfg.loc1(n)))]
+        for k, n in rearm:
+            nid = cfg.loc1(n)
+            ok = False
+            for e, pol in guard_exprs(cfg, nid):
+                b = match("$f is self._future", e)
+                if b is not None and pol and isinstance(b["f"], ast.Name):
+                    ws = writes_to_name(fi.node, b["f"].id)
+                    if len(ws) == 1 and isinstance(ws[0], ast.Assign) and chain(ws[0].value) == "self._future" and cfg.dominates(cfg.loc1(ws[0]), an) and cfg.loc1(ws[0]) != an:
+                        ok = True
+            ctx.ob("after its await the consumer replaces the mailbox future only if it is still the one it awaited (a newer one already holds the next item or error)", ok, fi, n)
+        rets = [r for r in walk_no_nested(fi.node) if isinstance(r, ast.Return)]
+        okr = bool(rets) and all(isinstance(r.value, ast.Name) and any(isinstance(w, ast.Assign) and w.value is aw[0] for w in writes_to_name(fi.node, r.value.id)) or r.value is aw[0] for r in rets)
+        ctx.ob("__anext__ returns what the awaited future delivered", okr, fi, rets[0] if rets else fi.node, construct="_Iterator.__anext__ result")
+    hs = [n for n in cfg.nodes if n.kind == "handler"]
+    okh = False
+    for h in hs:
+        t = h.ast.type
+        names = {chain(x).split(".")[-1] for x in (t.elts if isinstance(t, ast.Tuple) else [t]) if t is not None and chain(x)} if t is not None else set()
+        raised = [cfg.nodes[x].ast for x in cfg.reach({h.id}, skip_labels=("exc",)) if cfg.nodes[x].kind == "raise"]
+        if {"NotObservable", "ObservationCancelled"} <= names and raised and all(r.exc is not None and (chain(r.exc.func if isinstance(r.exc, ast.Call) else r.exc) or "") == "StopAsyncIteration" for r in raised):
+            okh = True
+            ctx.ob("only the end-of-observation signals end the iteration; other errors (NetworkError ...) are raised to the consumer", names == {"NotObservable", "ObservationCancelled"}, fi, h.ast, construct="_Iterator.__anext__ handler (%s)" % ", ".join(sorted(names)))
+    ctx.ob("NotObservable / ObservationCancelled end the `async for` (StopAsyncIteration)", okh, fi, fi.node, construct="_Iterator.__anext__ end of iteration")
+    ai = ctx.prog.func("protocol.ClientObservation.__aiter__")
+    regs_cb = [c for c, b in find("self.register_callback($it.push, $**kw)", ai.node)]
+    regs_eb = [c for c, b in find("self.register_errback($it.push_err, $**kw)", ai.node)]
+    ctx.ob("the iterator is fed by the observation's callbacks (push) and errbacks (push_err)", len(regs_cb) == 1 and len(regs_eb) == 1, ai, ai.node, construct="ClientObservation.__aiter__ wiring")
+
+
 F_PRO = "aiocoap/protocol.py"
 F_TM = "aiocoap/tokenmanager.py"
 F_CON = "aiocoap/numbers/constants.py"
@@ -528,3 +586,8 @@ R.seed("C07.f", F_PRO, "        except Exception as e:\n            weak_observa
 R.seed("C07.f", F_PRO, "            if not lower_observation.cancelled:\n                lower_observation.cancel()\n", "            pass\n", "lower observation leaks")
 R.seed("C07.f", F_PRO, "                weak_observation().callback(full_notification)\n", "                pass\n", "notifications not forwarded")
 R.seed("C07.f", F_PRO, "                    protocol, original_request, block1_notification, log\n                )\n                log.debug(\"Reporting completed notification\")", "                    protocol, block1_notification, block1_notification, log\n                )\n                log.debug(\"Reporting completed notification\")", "remaining blocks requested with the wrong request")
+
+R.seed("C07.g", F_PRO, "                if f is self._future:\n                    self._future = asyncio.get_running_loop().create_future()", "                self._future = asyncio.get_running_loop().create_future()", "consumer discards an item/error already queued in a replacement future")
+R.seed("C07.g", F_PRO, "        def push(self, item):\n            if self._future.done():", "        def push(self, item):\n            if False:", "second notification raises InvalidStateError in the callback")
+R.seed("C07.g", F_PRO, "            except (error.NotObservable, error.ObservationCancelled):\n                # only exit cleanly", "            except (error.NotObservable, error.ObservationCancelled, error.NetworkError):\n                # only exit cleanly", "network errors end the iteration silently")
+R.seed("C07.g", F_PRO, "        self.register_errback(it.push_err, _suppress_deprecation=True)\n        return it", "        return it", "errors never reach the iterator")
